@@ -269,6 +269,7 @@ func streamRoundTrip(c streamCase, prop ref.PropSizes) evid.Outcome {
 		return evid.Outcome{Skip: true}
 	}
 	var enc []byte
+	var parts, payloads [][]byte
 	for i, cmd := range c.Cmds {
 		m := gen.LibCmd(c.Uplink, cmd)
 		b, err := m.MarshalBinary()
@@ -281,10 +282,26 @@ func streamRoundTrip(c streamCase, prop ref.PropSizes) evid.Outcome {
 		if _, size, err := lorawan.GetMACPayloadAndSize(c.Uplink, lorawan.CID(cmd.CID)); err == nil && size != len(b)-1 {
 			return evid.Fail("registry size %d for CID %#02x uplink=%v differs from the encoded payload length %d", size, cmd.CID, c.Uplink, len(b)-1)
 		}
+		parts = append(parts, b)
+		if m.Payload != nil {
+			pb, err := m.Payload.MarshalBinary()
+			if err != nil || !bytes.Equal(pb, b[1:]) {
+				return evid.Fail("command %d (%+v): the payload alone encodes to %x (err %v), inside the command to %x", i, cmd, pb, err, b[1:])
+			}
+			payloads = append(payloads, pb)
+		} else {
+			payloads = append(payloads, nil)
+		}
+	}
+	// the caller encodes all commands first and assembles the stream afterwards: every returned slice is still what it was
+	for i, b := range parts {
 		enc = append(enc, b...)
+		if !bytes.Equal(payloads[i], b[1:]) {
+			return evid.Fail("command %d of %+v: the slice its payload encoder returned reads %x after the later commands were encoded, the command encoding carries %x", i, c.Cmds, payloads[i], b[1:])
+		}
 	}
 	if !bytes.Equal(enc, want) {
-		return evid.Fail("stream encodes to %x, the model framing gives %x", enc, want)
+		return evid.Fail("the commands %+v were encoded one by one and the returned slices joined afterwards: %x, the model framing gives %x", c.Cmds, enc, want)
 	}
 	f := ref.Frame{MType: mt, DevAddr: 0x01020304, FCnt: 1, FPort: -1}
 	if c.Where == "fopts" {
@@ -579,7 +596,7 @@ func TestProp(t *testing.T) {
 		300000, 10000000, genVal, checkVal)
 
 	evid.Rapid(r, t, "streams",
-		"rapid: command sequences per direction built to a drawn byte budget (FOpts <= 15, port 0 <= 242; a quarter exactly at the limit), including payload-less CIDs and up to 3 CIDs unknown in that direction; each command encodes to 1 + registered size; the concatenation equals the model framing and decodes (DecodeFOptsToMACCommands / DecodeFRMPayloadToMACCommands) to exactly the sequence. Non-trivial: >= 3 commands.",
+		"rapid: command sequences per direction built to a drawn byte budget (FOpts <= 15, port 0 <= 242; a quarter exactly at the limit), including payload-less CIDs and up to 3 CIDs unknown in that direction; each command encodes to 1 + registered size (its payload alone to the same bytes); all returned slices are held until every command is encoded, then joined: the concatenation equals the model framing and decodes (DecodeFOptsToMACCommands / DecodeFRMPayloadToMACCommands) to exactly the sequence. Non-trivial: >= 3 commands.",
 		50000, 3000000, genStream, checkStream)
 
 	evid.Rapid(r, t, "streams-with-unencodable-command",
